@@ -26,7 +26,9 @@ PROFILES = {
     "dcrm": dict(_BASE, max_params=1),
     "ncrm": dict(_BASE, invariants=0.2, traj=0.2, max_params=1),
     "qurm": dict(_BASE, invariants=0.2, traj=0.2, max_params=1),
-    "utfr": dict(_BASE, invariants=0.15, traj=0.15, max_params=1),
+    # no trajectory constraints / state invariants for utfr: its expression walker raises NotImplementedError on Always/
+    # Sometime/... although supported_kind() lists them (a "compilers succeed" = C08 matter)
+    "utfr": dict(_BASE, invariants=0.0, traj=0.0, max_params=1),
     "btrm": dict(_BASE, invariants=0.15, max_params=1),
     "sirm": dict(_BASE, invariants=1.0, traj=0.3, max_params=1),
     "tcrm": dict(_BASE, traj=1.0, invariants=0.2, numeric=False, object_fluents=False, forall_effects=False, max_params=1),
